@@ -22,7 +22,13 @@ for d in sorted(glob.glob(os.path.join(ROOT, "seeded", "*"))):
     lp = "/dev/shm/seedverify-%s.log" % seed
     if os.path.exists(lp):
         res = dict(re.findall(r"RESULT (\w+)=(\S+)", open(lp).read()))
-        if res:
+        prevv = meta.get("verified_in_scratch_worktree", {})
+        if res and "suite" not in res and prevv.get("existing_suite_with_patch") in ("pass",):
+            # demo-only re-verification on a later HEAD: keep the earlier full-suite result
+            prevv.update({"demo_on_unmodified_tree": res.get("demo_unmodified"), "patch_applies": res.get("apply"), "builds": res.get("build"),
+                          "demo_with_patch": res.get("demo_patched"), "demo_reverified_at_repo_head": head})
+            meta["verified_in_scratch_worktree"] = prevv
+        elif res:
             meta["verified_in_scratch_worktree"] = {
                 "how": "scripts/seed_verify.sh: git worktree of /repo HEAD outside /repo and /verif; demo on the unmodified tree, git apply patch.diff, go build, demo with the patch, then the full pinned suite with the patch (guard off); worktree removed afterwards",
                 "repo_head": meta.get("verified_in_scratch_worktree", {}).get("repo_head", head) if "suite" not in res else head,
